@@ -16,6 +16,7 @@ import FerretVerif.Drv.Lexer
 import FerretVerif.Drv.Diag
 import FerretVerif.Drv.Visibility
 import FerretVerif.Drv.Borrow
+import FerretVerif.Drv.QbeSel
 
 open FerretVerif
 
@@ -76,6 +77,7 @@ def main (args : List String) : IO UInt32 := do
   | ["diag-sort"] => eachLine cmdDiagSort; return 0
   | ["is-exported"] => eachLine cmdIsExported; return 0
   | ["borrow"] => eachLine cmdBorrow; return 0
+  | ["qbe-row"] => eachLine cmdQbeRow; return 0
   | ["sched"] => eachLine cmdSched; return 0
   | ["toml-fmt"] => eachLine cmdTomlFmt; return 0
   | ["toml-parseval"] => eachLine cmdTomlParseVal; return 0
